@@ -4,7 +4,7 @@ use std::collections::BTreeMap;
 use std::time::Instant;
 
 pub fn verif_dir() -> String {
-    std::env::var("PVMC_verif_dir()").unwrap_or_else(|_| "/verif".to_string())
+    std::env::var("PVMC_VERIF_DIR").unwrap_or_else(|_| "/verif".to_string())
 }
 
 #[derive(Clone, Debug)]
